@@ -91,7 +91,26 @@ type wlEntry struct {
 	Key  int  `json:"key"`  // 1..len(keys)
 	Size int  `json:"size"` // value size; 0 with Del
 	Del  bool `json:"del"`
+	TTL  bool `json:"ttl,omitempty"` // transactional workloads: written with an expiry one hour ahead
 	vid  int
+}
+
+// expOf: value id -> ExpiresAt the entry was written with (0: none). Written while a workload
+// runs, read-only while its crash images are observed.
+var (
+	expMu sync.Mutex
+	expOf = map[int]uint64{}
+)
+
+func txnSet(txn *NoKV.Txn, e wlEntry) error {
+	if !e.TTL {
+		return txn.Set(crashKeys[e.Key-1], valueBytes(e.vid, e.Size))
+	}
+	ent := kv.NewEntry(crashKeys[e.Key-1], valueBytes(e.vid, e.Size)).WithTTL(time.Hour)
+	expMu.Lock()
+	expOf[e.vid] = ent.ExpiresAt
+	expMu.Unlock()
+	return txn.SetEntry(ent)
 }
 
 type wlStep struct {
@@ -554,7 +573,7 @@ func (r *crashRun) doBatch(db *NoKV.DB, st wlStep) error {
 			if e.Del {
 				err = txn.Delete(crashKeys[e.Key-1])
 			} else {
-				err = txn.Set(crashKeys[e.Key-1], valueBytes(e.vid, e.Size))
+				err = txnSet(txn, e)
 			}
 			if err != nil {
 				txn.Discard()
@@ -603,7 +622,7 @@ func (r *crashRun) doCBatch(db *NoKV.DB, st wlStep) error {
 			if e.Del {
 				err = txn.Delete(crashKeys[e.Key-1])
 			} else {
-				err = txn.Set(crashKeys[e.Key-1], valueBytes(e.vid, e.Size))
+				err = txnSet(txn, e)
 			}
 			if err != nil {
 				return err
@@ -764,7 +783,18 @@ func readKey(db *NoKV.DB, cfg *wlConfig, values map[string]int, key []byte) stri
 	}
 	e2, err := db.GetVersionedEntry(kv.CFDefault, key, math.MaxUint64)
 	if err == nil && e2 != nil {
-		outs = append(outs, cls(e2.Value, nil, e2.Meta&kv.BitDelete != 0))
+		o := cls(e2.Value, nil, e2.Meta&kv.BitDelete != 0)
+		if v, ok := values[string(e2.Value)]; ok && e2.Meta&kv.BitDelete == 0 {
+			// the stored expiry belongs to the entry: a value whose expiry is not the one it was
+			// written with is not an entry any client wrote
+			expMu.Lock()
+			want := expOf[v]
+			expMu.Unlock()
+			if e2.ExpiresAt != want {
+				o = "OG"
+			}
+		}
+		outs = append(outs, o)
 	} else {
 		outs = append(outs, cls(nil, err, false))
 	}
@@ -1210,6 +1240,9 @@ func runWorkload(c *corr.Ctx, cfg *wlConfig, label string) error {
 	for i, k := range crashKeys {
 		r.keyOf[string(k)] = i + 1
 	}
+	expMu.Lock()
+	expOf = map[int]uint64{}
+	expMu.Unlock()
 	curRun = r
 	defer func() { curRun = nil }()
 	flushGate.setOpen(false)
@@ -1518,6 +1551,9 @@ func genWorkload(c *corr.Ctx, txn, sync bool) *wlConfig {
 				default:
 					e.Size = 32 + rng.Intn(30)
 				}
+				if txn && !e.Del && rng.Intn(4) == 0 {
+					e.TTL = true
+				}
 				es = append(es, e)
 			}
 			cfg.Steps = append(cfg.Steps, wlStep{Kind: "batch", Entries: es})
@@ -1541,7 +1577,7 @@ func runCrash(c *corr.Ctx) error {
 	installHooks()
 	c.Meta("run_module", "RunCrash")
 	c.Meta("exhaustive", false)
-	c.Meta("rule", "small workloads (<= 12 batches: plain Set/Del or transactions of 1-3 keys, in transactional workloads also 2-3 transactions committed concurrently so that one commit batch holds several requests, 4 keys, values on both sides of ValueThreshold, 1-2 value-log buckets, tiny value-log files and memtables so that both rotate, SyncWrites on/off, forced rotations, gated flushes, one L0 move, one value-log GC, optional manifest rewrites) on a real DB over a recording vfs.FS; every state-changing vfs operation and every verifhook.Crash site is a crash point: the directory image at that instant is reopened with the real Open, every key is read through Get / GetVersionedEntry / a transaction, then rotation + flush of every memtable, new writes of other keys until the value-log file of every bucket has rotated, GC of every sealed value-log file (newest first) are forced and the reads repeated after each stage, then a clean reopen; every workload ends with a recorded clean Close (which releases the backlog of sealed memtables: back-to-back flushes) whose directory is reopened the same way; on up to 3 WAL-write crash points per workload the image, and the image with that write torn at one position per byte class of its last record (inside the length header, inside the payload, between payload and checksum, inside the checksum), are reopened, a second incarnation writes two acknowledged batches, closes cleanly, and the directory is reopened and read again. non-trivial = crash point inside a batch or a maintenance step")
+	c.Meta("rule", "small workloads (<= 12 batches: plain Set/Del or transactions of 1-3 keys, in transactional workloads also 2-3 transactions committed concurrently so that one commit batch holds several requests, 4 keys, values on both sides of ValueThreshold, in transactional workloads a quarter of the values with an expiry one hour ahead (the stored ExpiresAt is part of every read), 1-2 value-log buckets, tiny value-log files and memtables so that both rotate, SyncWrites on/off, forced rotations, gated flushes, one L0 move, one value-log GC, optional manifest rewrites) on a real DB over a recording vfs.FS; every state-changing vfs operation and every verifhook.Crash site is a crash point: the directory image at that instant is reopened with the real Open, every key is read through Get / GetVersionedEntry / a transaction, then rotation + flush of every memtable, new writes of other keys until the value-log file of every bucket has rotated, GC of every sealed value-log file (newest first) are forced and the reads repeated after each stage, then a clean reopen; every workload ends with a recorded clean Close (which releases the backlog of sealed memtables: back-to-back flushes) whose directory is reopened the same way; on up to 3 WAL-write crash points per workload the image, and the image with that write torn at one position per byte class of its last record (inside the length header, inside the payload, between payload and checksum, inside the checksum), are reopened, a second incarnation writes two acknowledged batches, closes cleanly, and the directory is reopened and read again. non-trivial = crash point inside a batch or a maintenance step")
 	if c.Replay != "" {
 		cases, err := c.ReplayCases()
 		if err != nil {
@@ -1563,11 +1599,17 @@ func runCrash(c *corr.Ctx) error {
 	}
 	// scripted regression workloads, run before the generated ones
 	big := func(k int) wlEntry { return wlEntry{Key: k, Size: 40} }
+	bigTTL := func(k int) wlEntry { return wlEntry{Key: k, Size: 40, TTL: true} }
 	scripts := []*wlConfig{
 		// a transaction crashes between its value-log write (+ rotation, head edit) and the WAL:
 		// the sealed file keeps a record no logged record refers to; GC must not write it back
 		{Txn: true, Sync: true, Buckets: 1, MemTable: 1 << 20, VlogSize: 160, Threshold: 32, ManRewr: 64 << 20,
-			Steps: []wlStep{{Kind: "batch", Entries: []wlEntry{big(1)}}, {Kind: "batch", Entries: []wlEntry{big(1), big(2), big(3)}}}},
+			Steps: []wlStep{{Kind: "batch", Entries: []wlEntry{bigTTL(1)}}, {Kind: "batch", Entries: []wlEntry{big(1), big(2), big(3)}}}},
+		// a value with a future expiry in a value-log file that is sealed and collected: GC must
+		// move the entry with its expiry
+		{Txn: true, Sync: true, Buckets: 1, MemTable: 1 << 20, VlogSize: 160, Threshold: 32, ManRewr: 64 << 20,
+			Steps: []wlStep{{Kind: "batch", Entries: []wlEntry{bigTTL(1)}}, {Kind: "batch", Entries: []wlEntry{bigTTL(2)}},
+				{Kind: "batch", Entries: []wlEntry{big(3)}}, {Kind: "gc"}, {Kind: "batch", Entries: []wlEntry{{Key: 4, Size: 10, TTL: true}}}}},
 		// plain API: two values of one key in a value-log file that is then sealed; GC must not
 		// write the superseded one back over the newer one (all plain records share one version)
 		{Txn: false, Sync: false, Buckets: 1, MemTable: 1 << 20, VlogSize: 160, Threshold: 32, ManRewr: 64 << 20,
@@ -1624,6 +1666,13 @@ func runCrash(c *corr.Ctx) error {
 		c.Count("workload_scripted")
 		if err := runWorkload(c, cfg, fmt.Sprintf("script%d", i)); err != nil {
 			return fmt.Errorf("scripted workload %d: %w", i, err)
+		}
+	}
+	if c.Prop == "C09" {
+		for i := 0; i < c.Scale(2, 30); i++ {
+			if err := runWalLevel(c, i); err != nil {
+				return fmt.Errorf("wal-level workload %d: %w", i, err)
+			}
 		}
 	}
 	n := c.Scale(3, 60)
